@@ -15,7 +15,7 @@ definitions takes the union of their units (that is what makes `i = first_escape
 """
 from . import mir as M
 
-BYTE, CHAR = "byte", "char"
+BYTE, CHAR, UTF16 = "byte", "char", "utf16"
 
 BYTE_CALLS = ("core::str::<impl str>::len", "std::string::String::len", "core::str::<impl str>::find",
               "core::str::<impl str>::rfind", "::Match::<'h>::end", "::Match::<'h>::start", "::Match::<'_>::end",
@@ -36,9 +36,18 @@ def _is_str(ty):
     return t in ("str", "std::string::String") or t.endswith("::String")
 
 
-def analyse(f):
-    """returns (units: local -> set, sinks: [(bb, kind, operand-local, span, seq type)])"""
+FIELD_UNITS = {("character", "gen_lsp_types::Position"): UTF16, ("column", "parser::position::Position"): BYTE,
+               ("end_column", "parser::position::Position"): BYTE, ("start_offset", "parser::position::Position"): BYTE,
+               ("end_offset", "parser::position::Position"): BYTE}
+CLOSURE_PASS = ("::map_or", "::map", "::unwrap_or_else", "::and_then", "::map_or_else")
+
+
+def analyse(f, P=None, param_units=None, ret_units=None):
+    """returns (units: local -> set, sinks: [(bb, kind, operand-local, span, seq type)])
+    param_units: {local index: set} seeds for parameters (from call sites); ret_units: {callee path: set} summaries."""
     units = {}
+    for l, us in (param_units or {}).items():
+        units.setdefault(l, set()).update(us)
 
     def u(l):
         return units.get(l, set())
@@ -61,8 +70,17 @@ def analyse(f):
             seeds.append((d["l"], BYTE))
         elif n.endswith("::len") and at and _is_char_seq(at[0]):
             seeds.append((d["l"], CHAR))
-        elif n == "std::iter::Iterator::count" and at and "Chars" in at[0]:
+        elif n.endswith("::count") and at and "Chars<" in at[0]:
             seeds.append((d["l"], CHAR))
+        elif n.endswith("::count") and at and "EncodeUtf16" in at[0]:
+            seeds.append((d["l"], UTF16))
+        elif n.endswith("<impl char>::len_utf16"):
+            seeds.append((d["l"], UTF16))
+        elif n.endswith("CharIndices<'a> as std::iter::Iterator>::next") or (n.endswith("::next") and at and "CharIndices" in at[0]):
+            seeds.append((d["l"], BYTE))
+        elif ret_units and n in ret_units and ret_units[n]:
+            for un in ret_units[n]:
+                seeds.append((d["l"], un))
     for l, un in seeds:
         units.setdefault(l, set()).add(un)
     # field seeds: places ending in start_offset / end_offset of a Position
@@ -85,15 +103,26 @@ def analyse(f):
                     q = M.op_place(rv["a"])
                     if q is not None:
                         last = q["p"][-1] if q["p"] else None
-                        if isinstance(last, dict) and last.get("name") in ("start_offset", "end_offset") and "Position" in (last.get("adt") or ""):
-                            new.add(BYTE)
+                        fu = FIELD_UNITS.get((last.get("name"), last.get("adt"))) if isinstance(last, dict) else None
+                        if fu is not None:
+                            new.add(fu)
                         else:
                             new |= u(q["l"])
                 elif k == "binop":
                     if rv.get("op") in ("Add", "Sub", "AddWithOverflow", "SubWithOverflow", "AddUnchecked", "SubUnchecked"):
                         new |= op_units(rv["a"]) | op_units(rv["b"])
                 elif k == "cast":
-                    new |= op_units(rv["a"]) if "a" in rv else set()
+                    if "a" in rv:
+                        q = M.op_place(rv["a"])
+                        last = q["p"][-1] if q is not None and q["p"] else None
+                        fu = FIELD_UNITS.get((last.get("name"), last.get("adt"))) if isinstance(last, dict) else None
+                        if fu is not None:
+                            new.add(fu)
+                        else:
+                            new |= op_units(rv["a"])
+                elif k == "agg" and rv.get("ak") == "tuple":
+                    for a in rv.get("ops", []):
+                        new |= op_units(a)
                 elif k == "unop" and rv.get("op") == "PtrMetadata":
                     if _is_char_seq(rv.get("aty") or ""):
                         new.add(CHAR)
@@ -111,6 +140,11 @@ def analyse(f):
                     new = set()
                     for a in t["args"]:
                         new |= op_units(a)
+                    if P is not None and n.endswith(CLOSURE_PASS):
+                        for a in t["args"][1:]:
+                            cp = _closure_def(f, a)
+                            if cp and cp in P.funcs:
+                                new |= closure_ret_units(P, cp)
                     dl = t["dest"]["l"]
                     if new - u(dl):
                         units.setdefault(dl, set()).update(new)
@@ -141,6 +175,76 @@ def analyse(f):
             if seq and _is_char_seq(seq):
                 sinks.append((bi, "char-index", idx, t["span"], seq))
     return units, sinks
+
+
+def _closure_def(f, op):
+    r = f.root_of(op, through_named=True)
+    if r[0] == "rv" and r[3]["rv"]["k"] == "agg" and r[3]["rv"].get("ak") == "closure":
+        return r[3]["rv"]["def"]
+    if r[0] == "const" and "closure" in r[1]:
+        return r[1]["closure"]
+    return None
+
+
+_CRET = {}
+
+
+def closure_ret_units(P, cp):
+    key = (id(P), cp)
+    if key not in _CRET:
+        _CRET[key] = set()
+        c = P.funcs[cp]
+        us, _ = analyse(c, P)
+        _CRET[key] = set(us.get(0, set()))
+    return _CRET[key]
+
+
+CMP = ("Lt", "Le", "Gt", "Ge", "Eq", "Ne")
+ARITH = ("Add", "Sub", "AddWithOverflow", "SubWithOverflow", "AddUnchecked", "SubUnchecked")
+
+
+def mixes(f, units):
+    """[(bb, kind, op, units a, units b, span)] comparisons / sums whose operands carry different, disjoint units."""
+    out = []
+    for bi, b in enumerate(f.blocks):
+        for st in b["stmts"]:
+            if st.get("s") != "assign" or st["rv"]["k"] != "binop":
+                continue
+            rv = st["rv"]
+            if rv["op"] not in CMP + ARITH:
+                continue
+            pa, pb = M.op_place(rv["a"]), M.op_place(rv["b"])
+            ua = units.get(pa["l"], set()) if pa is not None else set()
+            ub = units.get(pb["l"], set()) if pb is not None else set()
+            if ua and ub and not (ua & ub):
+                out.append((bi, "compare" if rv["op"] in CMP else "arith", rv["op"], ua, ub, st["span"]))
+    return out
+
+
+def module_analysis(P, prefix, rounds=3):
+    """interprocedural (call-site -> parameter, return -> call result) unit analysis of the functions under `prefix`."""
+    fns = {p: f for p, f in P.funcs.items() if p.startswith(prefix)}
+    params = {p: {} for p in fns}
+    rets = {}
+    result = {}
+    for _ in range(rounds):
+        for p, f in fns.items():
+            us, sinks = analyse(f, P, params[p], rets)
+            result[p] = (us, sinks)
+            r0 = set(us.get(0, set()))
+            if "usize" in f.local_ty(0) or "u32" in f.local_ty(0):
+                rets[p] = r0
+            for bi, t in f.calls():
+                n = M.callee_name(t) or ""
+                if n in fns and n != p:
+                    for i, a in enumerate(t["args"]):
+                        q = M.op_place(a)
+                        if q is None:
+                            continue
+                        ua = us.get(q["l"], set())
+                        if ua and i + 1 <= fns[n].argc and ("usize" in fns[n].local_ty(i + 1) or "u32" in fns[n].local_ty(i + 1)):
+                            params[n].setdefault(i + 1, set()).update(ua)
+    return result, params
 
 
 def range_operand_units(f, op, units):
